@@ -3,7 +3,7 @@ From Coq Require Import List NArith Bool Lia ZifyNat ZifyN ZifyBool.
 Import ListNotations.
 Require Import Celma.Common.Res Celma.FixedStr.FsBase Celma.FixedStr.FsModel
   Celma.FixedStr.FsLemmas Celma.FixedStr.FsSafe Celma.FixedStr.FsSafeObs Celma.FixedStr.FsStd
-  Celma.FixedStr.FsRefine.
+  Celma.FixedStr.FsRefine Celma.FixedStr.FsRefine2a.
 Local Open Scope N_scope.
 
 Lemma take_blit_prefix (b : list byte) d src : d + nlen src <= nlen b -> take d (blit b d src) = take d b.
@@ -48,26 +48,34 @@ Lemma replace_impl_refines s pos1 count1 arr pos2 count2 :
 Proof.
   intros (Hb & Hl & Hz) H1 H2 H3 H4 Ha. pose proof HL as [HL1 HL2]. unfold replace_impl. cbv zeta.
   destruct (N.ltb_spec (len s) pos1); [lia|]. s64.
+  assert (LA : nlen (abs s) = len s) by (unfold abs; nl; lia).
+  assert (LI : nlen (take count2 (drop pos2 arr)) = count2) by (nl; lia).
+  rewrite (cut_replace (abs s) (take count2 (drop pos2 arr)) L pos1 count1) by lia.
+  rewrite LA, LI.
   set (c1 := if len s - pos1 <? count1 then len s - pos1 else count1).
   assert (Hc1 : c1 = N.min count1 (len s - pos1))
     by (unfold c1; destruct (N.ltb_spec (len s - pos1) count1); lia).
-  clearbody c1.
+  rewrite <- Hc1. clearbody c1.
   set (cl := if L - pos1 <? count2 then L - pos1 else count2).
   assert (Hcl : cl = N.min count2 (L - pos1))
     by (unfold cl; destruct (N.ltb_spec (L - pos1) count2); lia).
-  clearbody cl.
+  rewrite <- Hcl. clearbody cl.
+  rewrite take_take. replace (N.min cl count2) with cl by lia.
   destruct (N.eqb_spec c1 cl) as [E|E]; cbn [bind].
   - rewrite mcpy_blit by len_side. cbn [bind buf len].
-    eexists; split; [reflexivity|]. unfold abs, cut, std_replace. cbn [buf len]. abstract pw.
+    eexists; split; [reflexivity|]. rewrite <- E in *. clear E.
+    replace (N.min (len s - pos1 - c1) (L - pos1 - c1)) with (len s - pos1 - c1) by lia.
+    unfold abs. cbn [buf len]. apply (replace_same_buffer (buf s) arr L (len s)); lia.
   - s64.
     set (rest := if L - pos1 - cl <? len s - pos1 - c1 then L - pos1 - cl else len s - pos1 - c1).
     assert (Hrest : rest = N.min (len s - pos1 - c1) (L - pos1 - cl))
       by (unfold rest; destruct (N.ltb_spec (L - pos1 - cl) (len s - pos1 - c1)); lia).
-    clearbody rest.
+    rewrite <- Hrest. clearbody rest.
     rewrite mmove_blit by len_side. cbn [bind]. s64. rewrite (fin_blit L HL) by len_side.
     cbn [bind buf len].
     rewrite mcpy_blit by len_side. cbn [bind].
-    eexists; split; [reflexivity|]. unfold abs, cut, std_replace. cbn [buf len]. abstract pw.
+    eexists; split; [reflexivity|]. unfold abs. cbn [buf len].
+    apply (replace_buffer (buf s) arr L (len s)); lia.
 Qed.
 
 Lemma swap_refines s o :
@@ -79,21 +87,21 @@ Proof.
   - destruct (N.ltb_spec 0 (len o)).
     + s64. rewrite mcpy_blit by len_side. cbn [bind]. rewrite wr_blit by len_side. cbn [bind].
       rewrite !trunc_id by (assumption || lia).
-      eexists _, _; split; [reflexivity|]. unfold abs. cbn [buf len]. rewrite E0. split; [pw|].
+      eexists _, _; split; [reflexivity|]. unfold abs. cbn [buf len]. rewrite E0. split; [abstract pw|].
       rewrite !take_0. reflexivity.
     + eexists _, _; split; [reflexivity|]. unfold abs. rewrite E0. replace (len o) with 0 by lia.
       rewrite !take_0. split; reflexivity.
   - destruct (N.eqb_spec (len o) 0) as [Eo|Eo].
     + s64. rewrite mcpy_blit by len_side. cbn [bind]. rewrite wr_blit by len_side. cbn [bind].
       rewrite !trunc_id by (assumption || lia).
-      eexists _, _; split; [reflexivity|]. unfold abs. cbn [buf len]. rewrite Eo. split; [|pw].
+      eexists _, _; split; [reflexivity|]. unfold abs. cbn [buf len]. rewrite Eo. split; [|abstract pw].
       rewrite !take_0. reflexivity.
     + s64. assert (Hr : nlen (rep 0 (L + 1)) = L + 1) by apply nlen_rep.
       rewrite (mcpy_blit (rep 0 (L + 1))) by len_side. cbn [bind].
       rewrite (mcpy_blit (buf s)) by len_side. cbn [bind].
       rewrite (mcpy_blit (buf o)) by len_side. cbn [bind].
       rewrite !trunc_id by (assumption || lia).
-      eexists _, _; split; [reflexivity|]. unfold abs. cbn [buf len]. split; pw.
+      eexists _, _; split; [reflexivity|]. unfold abs. cbn [buf len]. split; abstract pw.
 Qed.
 
 End Refine2.
